@@ -706,19 +706,19 @@ func (c *Ctx) appendAlways(rule string, fi *FuncInfo, fields []string, clause st
 // contraction of the reference look identical and empties the reference-only terms.
 func (c *Ctx) breakIdentical(rule string, funcs []*FuncInfo, clause string) int {
 	n := 0
-	seen := map[*FuncInfo]bool{}
+	seen := map[*types.Func]bool{}
 	var check func(fi *FuncInfo, ident types.Object, depth int)
 	check = func(fi *FuncInfo, ident types.Object, depth int) {
-		if fi == nil || fi.Decl.Body == nil || seen[fi] || depth > 3 {
+		if fi == nil || fi.Decl.Body == nil || seen[fi.Obj] || depth > 3 {
 			return
 		}
-		seen[fi] = true
+		seen[fi.Obj] = true
 		info := fi.Pkg.TypesInfo
 		walkStack(fi.Decl.Body, func(nd ast.Node, stack []ast.Node) bool {
 			// helpers that receive the identical-only flag carry part of the loops
 			if call, isCall := nd.(*ast.CallExpr); isCall {
 				if h := calleeOf(info, call); h != nil && inRepo(h) && h.Pkg() == fi.Obj.Pkg() {
-					if hfi := c.FuncOfObj(h); hfi != nil && hfi != fi {
+					if hfi := c.FuncOfObj(h); hfi != nil && h != fi.Obj {
 						idx := 0
 						var hp types.Object
 						for _, f := range hfi.Decl.Type.Params.List {
@@ -1466,4 +1466,34 @@ func (c *Ctx) builtinValues(rule string, funcs []*FuncInfo, clause string) int {
 		c.OK(rule, "scan", token.NoPos, fmt.Sprintf("%d registrations, all through pflag's typed registrars", total)).Clause = clause
 	}
 	return total
+}
+
+// withHelpers: fi and the unexported functions of its own package that it calls (statically
+// resolved, closures included), transitively up to depth - the places a refactoring moves a
+// loop body or a block to.
+func (c *Ctx) withHelpers(fi *FuncInfo, depth int) []*FuncInfo {
+	if fi == nil {
+		return nil
+	}
+	out := []*FuncInfo{fi}
+	seen := map[*types.Func]bool{fi.Obj: true}
+	var walk func(f *FuncInfo, d int)
+	walk = func(f *FuncInfo, d int) {
+		if d <= 0 || f.Decl.Body == nil {
+			return
+		}
+		for _, call := range callsIn(f.Decl.Body, true) {
+			h := calleeOf(f.Pkg.TypesInfo, call)
+			if h == nil || !inRepo(h) || h.Pkg() != fi.Obj.Pkg() || h.Exported() {
+				continue
+			}
+			if hfi := c.FuncOfObj(h); hfi != nil && !seen[h] {
+				seen[h] = true
+				out = append(out, hfi)
+				walk(hfi, d-1)
+			}
+		}
+	}
+	walk(fi, depth)
+	return out
 }
